@@ -305,3 +305,38 @@ def check_refusal_is_broken_pipe(facts, rep, crate, rid):
             else:
                 rep.bad(rid, key, where, "no return is reached on the refusal edge of the credit take")
     rep.floor(rid, "write entry points that can be refused", k, 3 if "std" in crate.features else 0)  # no io::Error without std
+
+
+def check_dropped_flow_senders(facts, rep, crate, rid):
+    """Who may report a flow id as dropped: the stream handle's Drop (its own id) and the Multiplexor's Drop (the reserved 0).
+    Any other unconditional report outlives the resolution of the slot it was made for and closes whichever flow reuses the id."""
+    from an import Tracer, callee, strip, fmt, const_eval, walk
+    from mir import loc_str
+    k = 0
+    for b in crate.bodies:
+        tr = None
+        for bi, t in b.calls():
+            c = callee(t)
+            if not c or c["name"] != "send" or "UnboundedSender::<u32>" not in c["path"]:
+                continue
+            tr = tr or Tracer(facts, b)
+            k += 1
+            where = "%s (%s)" % (loc_str(t["loc"]), b.path)
+            owner = (b.j.get("impl_self") or {}).get("adt") or ""
+            v = strip(tr.operand(t["args"][1]))
+            key = "dropped-flow-report/%s" % (b.path.split("::{")[0])
+            if b.name == "drop" and owner.endswith("::MuxStream") and v.kind == "field" and v[2] == "flow_id":
+                rep.ok(rid, key, where, "the stream handle reports its own id when it is dropped")
+            elif b.name == "drop" and owner.endswith("::Multiplexor") and const_eval(v) == 0:
+                rep.ok(rid, key, where, "the multiplexor handle reports the reserved id 0")
+            else:
+                rets = [x for x in range(len(b.blocks)) if b.term(x)["k"] == "Return"]
+                uncond = not any(r in b.reachable_from(0, cut={bi}) for r in rets)
+                if uncond:
+                    rep.bad(rid, key, where,
+                            "a flow id (`%s`) is reported on the dropped-flows queue by something other than the stream handle's Drop, on every path: "
+                            "the report is still delivered after the slot it was made for has been resolved and freed, and then closes "
+                            "(Reset / false) whichever request or stream has re-used the id in the meantime" % fmt(v)[:80])
+                else:
+                    rep.info("%s: conditional report of `%s` on the dropped-flows queue in %s (not decided)" % (rid, fmt(v)[:60], b.path))
+    rep.floor(rid, "reports on the dropped-flows queue", k, 2)
